@@ -119,17 +119,7 @@ class AbstractAst:
             raise RTAMTException('STL specification if empty')
 
         #TODO How to handle sub-formulas?
-        entire_spec = self.modular_spec + self.spec
-
-        # the final ';' may be omitted: it is added unless the last token is one (white space and
-        # comments after the last token do not count, and a ';' inside a comment is not a token)
-        probe = self.antrlLexerType(InputStream(entire_spec))
-        if not isinstance(probe, Lexer):
-            raise RTAMTException('{} is not ANTRL4 Lexer'.format(probe.__class__.__name__))
-        probe.removeErrorListeners()
-        tokens = probe.getAllTokens()
-        if not tokens or tokens[-1].type != probe.SEMICOLON:
-            entire_spec += '\n;'
+        entire_spec = self.modular_spec + self.terminated(self.spec)
 
         input_stream = InputStream(entire_spec)
         lexer = self.antrlLexerType(input_stream)
@@ -225,8 +215,21 @@ class AbstractAst:
         node = self.phi_name_to_node_dict[phi_name]
         return self.results[node]
 
+    def terminated(self, text):
+        # the final ';' may be omitted: it is added unless the last token is one (white space and
+        # comments after the last token do not count, and a ';' inside a comment is not a token)
+        probe = self.antrlLexerType(InputStream(text))
+        if not isinstance(probe, Lexer):
+            raise RTAMTException('{} is not ANTRL4 Lexer'.format(probe.__class__.__name__))
+        probe.removeErrorListeners()
+        tokens = probe.getAllTokens()
+        if not tokens or tokens[-1].type != probe.SEMICOLON:
+            text += '\n;'
+        return text
+
     def add_sub_spec(self, sub_spec):
-        self.modular_spec = self.modular_spec + sub_spec + '\n'
+        # (the final ';' of a sub-specification may be omitted like the one of the specification)
+        self.modular_spec = self.modular_spec + self.terminated(sub_spec) + '\n'
 
     def create_var_from_name(self, var_name):
         var = None
